@@ -25,6 +25,9 @@ func (f DcEnergyMeterAuxModeFactoryType) New(v uint8) (DcEnergyMeterAuxMode, err
 }
 
 func (f DcEnergyMeterAuxModeFactoryType) NewEnum(v int) (Enum, error) {
+	if v < 0 || v > 255 {
+		return nil, ErrInvalidEnumIdx
+	}
 	return f.New(uint8(v))
 }
 
